@@ -651,8 +651,65 @@ def s6_ufuncs(ctx):
             run_case(uf, "call", None, [("Q", ()), ("A", (3,)), ("Q", ())], ("m", "m", "m"))
 
 
+# ==========================================================================================
+# S7 — catalogue of unit-returning operations
+
+
 def s7_functions(ctx):
-    pass
+    import unyt
+    import c16_cat
+
+    chk = ctx.chk
+    rules = ctx.tables()["handler_rules"]
+    # the regenerated Lean table against what the translator reported (dump cross-check)
+    for name, rs in rules.items():
+        ctx.ask(f"c16.handlerrules\t{name}", ["ok", ",".join(rs)], f"generated handler rules {name}")
+    par = [("A", s_) for s_ in ctx.shapes if s_ != ()] + [("Q", ()), ("Q1", (1,)), ("S", (3,)), ("S", (1,))]
+    for kind, shp in par:
+        for key, expr, guard, handler, uses_out in c16_cat.CATALOGUE:
+            if not guard(shp):
+                continue
+            setup = L.setup_src(shp, kind)
+            if uses_out:
+                plain = expr.replace(", out=" + c16_cat.OUT, "")
+                env0 = {}
+                st0, _ = outcome(lambda: exec(setup + f"r = {plain}\n", env0))
+                if st0 == "err" or not isinstance(env0.get("r"), np.ndarray):
+                    continue
+                expr_ = expr.replace("RSHAPE", repr(tuple(env0["r"].shape)))
+            else:
+                expr_ = expr
+            src = setup + f"r = {expr_}\n"
+            env = {}
+            st, r = outcome(lambda: exec(src, env))
+            chk.case(("func", key, expr, kind, shp), {"op": expr_, "parent": f"{kind}{shp}"} if len(chk.samples) < 12 else None)
+            chk.count("S7:" + ("handled" if handler else "other"))
+            if st == "err":
+                try:
+                    msg = str(r)
+                except Exception:
+                    msg = ""
+                if isinstance(r, RuntimeError) and "must be scalars" in msg:
+                    chk.fail(f"quantity-size-refusal|func|{key}", f"{expr_} on {kind}{shp} raised 'unyt_quantity instances must be scalars'", {"python": src, "operation": expr_})
+                elif isinstance(r, AttributeError) and "has no attribute 'units'" in msg:
+                    chk.fail(f"scalar-wrap-crash|func|{key}", f"{expr_} on {kind}{shp}: a NumPy scalar result reached unyt_array(..., bypass_validation=True) ({msg})", {"python": src, "operation": expr_})
+                else:
+                    chk.count("S7:raised:" + core.exc_name(r))
+                continue
+            r = env["r"]
+            ctx.judge(r, "func", key, src)
+            # handlers: class predicted from the regenerated return rule and the result's shape
+            if handler and isinstance(r, unyt.unyt_array) and handler in rules:
+                rs = [x_ for x_ in rules[handler] if x_ != "other"]
+                if uses_out and "alwaysArray" in rs:
+                    rule = "alwaysArray"
+                elif len(rs) == 1:
+                    rule = rs[0]
+                else:
+                    rs2 = [x_ for x_ in rs if x_ != "alwaysArray"]
+                    rule = rs2[0] if len(rs2) == 1 else None
+                if rule:
+                    ctx.ask(f"c16.handler\t{rule}\t{L.shape_w(r.shape)}", ["ok", L.cls_name(r) if kind != "S" or type(r) in (unyt.unyt_array, unyt.unyt_quantity) else L.cls_name(r), L.shape_w(r.shape)], f"{expr_} on {kind}{shp}")
 
 
 def s8_witnesses(ctx):
